@@ -243,6 +243,13 @@ def run(tier, seed, extra):
             col.case((t, cm))
             check_doc(col, t, cm)
             cnt += 1
+    import itertools
+
+    for levels in itertools.product((1, 2, 3, 4), repeat=5 if tier == "quick" else 6):
+        t = "".join("#" * lv + f" H{i}\n\npara {i}\n\n" for i, lv in enumerate(levels))
+        col.case(("levels", levels))
+        check_doc(col, t, False)
+        cnt += 1
     for _ in range(200 if tier == "quick" else 5000):
         d = gen_doc(rng, allow=ALLOW)
         cm = rng.random() < 0.4
